@@ -127,7 +127,7 @@ func (r *Run) RunWorkers(n int, env ...string) int {
 			part := filepath.Join(dir, fmt.Sprintf("part-%d.json", i))
 			cmd := exec.Command(os.Args[0], os.Args[1:]...)
 			journal := filepath.Join(dir, fmt.Sprintf("journal-%d.txt", i))
-			cmd.Env = append(os.Environ(), fmt.Sprintf("VERIF_WORKER=%d/%d", i, n), "VERIF_PART="+part, "VERIF_JOURNAL="+journal, "GOMAXPROCS=2")
+			cmd.Env = append(os.Environ(), fmt.Sprintf("VERIF_WORKER=%d/%d", i, n), "VERIF_PART="+part, "VERIF_JOURNAL="+journal, "GOMAXPROCS=2", fmt.Sprintf("VERIF_PARENT_START=%d", r.start.UnixNano()))
 			cmd.Env = append(cmd.Env, env...)
 			out, err := cmd.CombinedOutput()
 			if err != nil {
